@@ -1,0 +1,9 @@
+//go:build verif
+
+package server
+
+import "time"
+
+// VerifSetShareFailureSleep replaces the anti-timing delay applied to
+// refused share requests.
+func VerifSetShareFailureSleep(fn func(time.Duration)) { timeSleep = fn }
